@@ -207,16 +207,19 @@ def composition(ctx, label, data, o, names):
             missing = refvm.missing_events(vm.log, log)
             if missing:
                 # arguments that come out of iterating a set (`f(*frozenset(...))`) have no defined order: a call that
-                # differs only in the order of its arguments is the same call here
-                vm.log.events = [_order_blind(e) for e in vm.log.events]
-                log.events = [_order_blind(e) for e in log.events]
-                missing = refvm.missing_events(vm.log, log)
+                # differs only in the order of its arguments is the same call here; and a call that differs only in the
+                # module of a same-named global is the recorded bare-name shadowing (vp_sink.hit / vp_other.hit /
+                # K imported from two modules), not staleness.  Both are judged on the events as logged (the
+                # module-erasing comparison needs the structured form, so it is made before the order-blind one).
+                dec = list(log.events)
+                dec_ob = {repr(_order_blind(d)) for d in dec}
+                dec_erased = {repr(_order_blind(refvm.erase_modules(d))) for d in dec if d[0] != "import"}
+                missing = [m for m in missing
+                           if repr(_order_blind(m[0])) not in dec_ob
+                           and not (m[0][0] != "import" and repr(_order_blind(refvm.erase_modules(m[0]))) in dec_erased)]
             agg.count("composition_steps_checked")
             if missing and not de.scheme_name_collision(o):
                 ev = missing[0][0]
-                if ev[0] != "import" and any(refvm.erase_modules(d) == refvm.erase_modules(ev) and d != ev
-                                             for d in log.events if d[0] == ev[0]):
-                    continue        # the recorded bare-name shadowing (vp_sink.hit / vp_other.hit), not staleness
                 agg.violation("stale-decompile-after-edit",
                               f"after injection #{si + 1} into an already decompiled object the decompile lacks an import/call "
                               f"the VM performs for the object's current bytes",
